@@ -158,7 +158,14 @@ def body(case, ctx: Ctx):
     info = {k: case[k] for k in case if k not in ("u", "ub")}
     info["values_head"] = v[:8]
     labels = [f"shape.{case['shape']}", f"interval.{case['interval_min']}"]
-    G = lambda sig, fn, *a, **kw: ctx.guarded(sig, case, fn, *a, **kw)
+    def G(sig, fn, *a, **kw):
+        """call a metric; the series handed in must come back unchanged (a caller may use them again)"""
+        held = [(x, x.copy(deep=True)) for x in list(a) + list(kw.values()) if isinstance(x, pd.Series)]
+        r = ctx.guarded(sig, case, fn, *a, **kw)
+        for x, c in held:
+            ctx.check(x.equals(c), f"inputs.mutated.{sig}", lambda: f"{fn.__name__} changed the series it was given: {list(c[:4])} -> {list(x[:4])}", case)
+        return r
+
 
     # ---- maximum drawdown
     m_ref = ref_mdd(v)
@@ -200,6 +207,8 @@ def body(case, ctx: Ctx):
         a1 = G("apr.endpoints", C.annualized_return, dur, init, final)
         a2 = G("apr.net_values", C.annualized_return, dur, net_values=s)
         a3 = G("apr.return_rates", C.annualized_return, dur, return_rates=rs)
+        a3b = G("apr.return_rates", C.annualized_return, dur, return_rates=rs)
+        ctx.check(a3 is None or a3b is None or (a3 == a3b) or (a3 != a3 and a3b != a3b), "apr.repeatable", lambda: f"second call on the same return series gives {a3b!r}, first gave {a3!r}", case)
         t_apr = lambda x: abs(float(x) - apr_ref) <= tol_pow * (abs(apr_ref) + 1)
         ctx.check(a1 is not None and t_apr(a1), "apr.compound.endpoints", lambda: f"{a1!r} vs {apr_ref!r}", case)
         ctx.check(a2 is not None and t_apr(a2), "apr.compound.net_values", lambda: f"{a2!r} vs {apr_ref!r}", case)
